@@ -20,7 +20,12 @@ func NewFieldsMatcher(expression string) (fm *FieldsMatcher, err error) {
 	fm = &FieldsMatcher{
 		expression: expression,
 	}
-	fm.selector, err = ParsePathExpression(expression)
+	var selector *PathMatchExpression
+	if selector, err = ParsePathExpression(expression); selector != nil {
+		// containers on the way to a selected field have to be let thru
+		selector.matchAncestors = true
+	}
+	fm.selector = selector
 	return
 }
 
